@@ -135,6 +135,23 @@ static std::string gen_coord(std::mt19937_64& rng) {
     return s;
 }
 
+// string_to_object_version / changeset / uid (string_to_ulong): "-1" means 0; otherwise optional '+', decimal digits only, value below 2^32-1, whole string
+static int check_attr(const std::string& s, bool search) {
+    bool ref_ok = false; unsigned long long ref = 0;
+    if (s == "-1") { ref_ok = true; ref = 0; }
+    else if (!s.empty() && s[0] != '-' && !std::isspace(static_cast<unsigned char>(s[0]))) {
+        size_t i = (s[0] == '+') ? 1 : 0; bool digits = i < s.size(); unsigned __int128 v = 0;
+        for (; i < s.size(); ++i) { if (s[i] < '0' || s[i] > '9') { digits = false; break; } v = v * 10 + unsigned(s[i] - '0'); if (v > (unsigned __int128)1 << 70) v = (unsigned __int128)1 << 70; }
+        if (digits && v < 4294967295ULL) { ref_ok = true; ref = static_cast<unsigned long long>(v); }
+    }
+    bool ok = true; unsigned long long got = 0;
+    try { got = osmium::string_to_object_version(s.c_str()); } catch (const std::range_error&) { ok = false; }
+    if (ok != ref_ok || (ok && got != ref)) {
+        std::printf("string_to_object_version(\"%s\"): library %s%llu, reference %s%llu\nARGV: attr %s\n", s.c_str(), ok ? "returns " : "rejects ", got, ref_ok ? "returns " : "rejects ", ref, search ? "search" : s.c_str());
+        return 1; }
+    return 0;
+}
+
 int main(int argc, char** argv) {
     if (argc >= 2 && std::string(argv[1]) == "--search") {
         unsigned seed = argc > 2 ? unsigned(std::atoll(argv[2])) : 0; std::string only = argc > 3 ? argv[3] : "";
@@ -158,12 +175,19 @@ int main(int argc, char** argv) {
                 for (auto c : corpus) if (check_int(t, c, true)) return 1;
                 for (int i = 0; i < 100000; ++i) { std::string s; if (rng() % 3 == 0) s += '-'; int n = rng() % 22; for (int k = 0; k < n; ++k) s += char('0' + rng() % 10); if (rng() % 4 == 0) s += " x"[rng() % 2]; if (check_int(t, s, true)) return 1; } }
         }
+        if (all || only.find("string_to") != std::string::npos) {
+            const char* corpus[] = {"", "-1", "-0", "-2", "0", "1", "+5", " 5", "5 ", "4294967294", "4294967295", "4294967296", "18446744073709551615", "18446744073709551616", "-18446744073709551615",
+                                    "-18446744073709551574", "-18446744069414584322", "-18446744073709551616", "99999999999999999999999", "0x10", "1e3", "00000000000000000000000000000000000007", "-", "+"};
+            for (auto c : corpus) if (check_attr(c, true)) return 1;
+            for (int i = 0; i < 200000; ++i) { std::string s2; if (rng() % 4 == 0) s2 += "-+ "[rng() % 3]; int n = rng() % 22; for (int k = 0; k < n; ++k) s2 += char('0' + rng() % 10); if (rng() % 8 == 0) s2 += " x"[rng() % 2]; if (check_attr(s2, true)) return 1; }
+        }
         std::printf("search: no disagreement found\n");
         return 0;
     }
     if (argc < 3) return 2;
     std::string m = argv[1];
     if (m == "coord") return check_coord(unhex(argv[2]), false);
+    if (m == "attr") return check_attr(argv[2], false);
     if (m == "fmt") return check_fmt(int32_t(std::atoll(argv[2])), false);
     if (m == "int" && argc >= 4) return check_int(argv[2], unhex(argv[3]), false);
     return 2;
